@@ -439,6 +439,20 @@ def _diff_keys(a, b):
     return sorted(k for k in set(a) | set(b) if a.get(k) != b.get(k))
 
 
+def _pd_changed(before, after):
+    """a pd cache entry that was valid (computed, current state id) before an evaluate must be byte-identical after it: the
+    cached value of a grid PDF for a trial is a constant — the implementation-side form of the Lean invariant `pd_ok`
+    (whoever is handed the cache array must not write into it)"""
+    for g, a in before.items():
+        b = after.get(g)
+        if b is None or b.shape != a.shape:
+            continue
+        m = ~np.isnan(a)
+        if a[m].tobytes() != b[m].tobytes():
+            return g
+    return None
+
+
 def o_cache_snapshot(ctx, case, collect=None):
     """byte snapshots around evaluations:
       (1) inputs (spline / grid tables, the tables of parameter-free factors) are never written;
@@ -463,6 +477,7 @@ def o_cache_snapshot(ctx, case, collect=None):
     for i, op in enumerate(case['ops']):
         stored = None if G.stub is None or op[0] != 'E' else cf._b(G.stub._stored)
         svc = cf.service_snapshot(G) if op[0] in ('G', 'H') else None
+        pd0 = cf.pd_cache_snapshot(G) if op[0] == 'E' else None
         try:
             r_op = apply_op(G, op)
             if collect is not None:
@@ -471,6 +486,12 @@ def o_cache_snapshot(ctx, case, collect=None):
             if collect is not None:
                 collect.append('EXC:%s: %s' % (type(e).__name__, str(e)[:120]))
             continue
+        if pd0:
+            g = _pd_changed(pd0, cf.pd_cache_snapshot(G))
+            if g is not None:
+                return ('operation %d %s of the history %s changed the cached PDF values of grid point %r, which had been computed '
+                        'earlier in the same trial (a consumer wrote into the cache array it was handed); configuration %s'
+                        % (i, op, case['ops'], g, spec))
         if svc is not None and svc != cf.service_snapshot(G):
             return ('operation %d %s of the history %s changed what the weight services hand out %s (a read-only query wrote '
                     'into an array it was handed); configuration %s' % (i, op, case['ops'],
@@ -478,6 +499,7 @@ def o_cache_snapshot(ctx, case, collect=None):
         if stored is not None and stored != cf._b(G.stub._stored):
             return ('operation %d %s of the history %s changed the array the parameter-free PDF ratio hands out '
                     '(a consumer wrote into its input); configuration %s' % (i, op, case['ops'], spec))
+    pd0 = cf.pd_cache_snapshot(G)
     try:
         r1 = cf.op_evaluate(G, ns, xs)
         if collect is not None:
@@ -490,6 +512,10 @@ def o_cache_snapshot(ctx, case, collect=None):
     pd1 = cf.pd_cache_snapshot(G)
     where = 'after the history %s (first trial: data set %d, source set %d); configuration %s' % (
         case['ops'], case['d0'], case['s0'], spec)
+    g = _pd_changed(pd0, pd1)
+    if g is not None:
+        return ('evaluate(%r, %r) changed the cached PDF values of grid point %r, which had been computed earlier in the same '
+                'trial (a consumer wrote into the cache array it was handed) %s' % (ns, xs, g, where))
     try:
         r2 = cf.op_evaluate(G, ns, xs)
     except Exception as e:  # noqa
@@ -1049,7 +1075,12 @@ def o_corr(ctx, case):
 
 
 # ---- data field depending on a global fit parameter (TrialDataManager level) ------------------------
-#   fcase = {d0, s0, ops: [['N', d] | ['R'] | ['S', s] | ['C', gamma]], final: gamma}
+#   fcase = {d0, s0, ops: [['N', d] | ['R'] | ['S', s] | ['C', [gamma, ns]]], final: [gamma, ns]}
+#   (the field depends on two global fit parameters; a bare number g stands for [g, 1.0])
+
+def _fk(x):
+    return [float(v) for v in x] if isinstance(x, (list, tuple)) else [float(x), 1.0]
+
 
 def run_field_history(d0, s0, ops):
     cf = _cf()
@@ -1066,7 +1097,7 @@ def run_field_history(d0, s0, ops):
             cf.field_change_source(T, op[1])
             res.append('U')
         elif op[0] == 'C':
-            res.append(cf.field_calc(T, op[1]))
+            res.append(cf.field_calc(T, *_fk(op[1])))
     return res
 
 
@@ -1107,10 +1138,10 @@ def _field_request(fcase, reset):
             s = op[1]
             toks.append('S%d' % s)
         else:
-            gammas.add(float(op[1]))
-            toks.append('C' + f2b(op[1]))
+            gammas.add(tuple(_fk(op[1])))
+            toks.append('C' + flist(_fk(op[1])))
         ds.add((d, s))
-    tab = ['%d:%d:%s:%s' % (d_, s_, f2b(g), flist(cf.field_value(d_, s_, g))) for (d_, s_) in sorted(ds) for g in sorted(gammas)]
+    tab = ['%d:%d:%s:%s' % (d_, s_, flist(g), flist(cf.field_value(d_, s_, *g))) for (d_, s_) in sorted(ds) for g in sorted(gammas)]
     return 'field %d %s %d %d %s' % (1 if reset else 0, ';'.join(tab), fcase['d0'], fcase['s0'], ';'.join(toks))
 
 
@@ -1147,8 +1178,11 @@ def gen_field_case(ctx, maxlen):
         elif r < 0.55:
             ops.append(['S', rng.randrange(2)])
         else:
-            ops.append(['C', rng.choice([2.0, 2.5, 3.25])])
-    return dict(d0=rng.randrange(3), s0=rng.randrange(2), ops=ops, final=rng.choice([2.0, 2.5, 3.25]))
+            ops.append(['C', [rng.choice([2.0, 2.5, 3.25]), rng.choice([1.0, 4.0])]])
+    # the final key changes none / one / both of the two parameters of the last computed key
+    last = next((o[1] for o in reversed(ops) if o[0] == 'C'), [2.0, 1.0])
+    final = [rng.choice([last[0], last[0], 2.5, 3.25]), rng.choice([last[1], last[1], 4.0, 1.0])]
+    return dict(d0=rng.randrange(3), s0=rng.randrange(2), ops=ops, final=final)
 
 
 def shrink_field(ctx, fcase):
@@ -1203,7 +1237,7 @@ def classify(name, case, res):
     elif name == 'trace_fresh':
         mode = 'intermediate-evaluate'
     elif name == 'cache_snapshot':
-        mode = ('input-written' if ('input tables' in res or 'hands out' in res) else
+        mode = ('input-written' if ('input tables' in res or 'hands out' in res or 'cache array it was handed' in res) else
                 'repeated-evaluation' if ('twice in a row' in res or 'second time' in res) else 'cache-content')
     elif name == 'arg_forms':
         mode = 'caller-side-form'
@@ -1225,10 +1259,10 @@ def classify(name, case, res):
 def all_specs(split_ok):
     specs = [dict(K=3, split=sp, fields=f, cache=c, interp=i, scale='small')
              for sp in ((False, True) if split_ok else (False,)) for f in ('none', 'all') for c in (False, True)
-             for i in ('linear', 'parabola') if (c if not sp else (f == 'all' or c))]
+             for i in ('linear', 'parabola') if (c and f == 'all' if not sp else (f == 'all' and c) or (f == 'none' and c and i == 'linear'))]
     for K in (1, 2):
         for split in ((False, True) if (K == 2 and split_ok) else (False,)):
-            for fields in ('none', 'static', 'all'):
+            for fields in (('none', 'all') if (K == 2 and split) else ('none', 'static', 'all')):
                 for cache in (False, True):
                     for interp in ('linear', 'parabola'):
                         for scale in ('small', 'mjd'):
@@ -1280,6 +1314,12 @@ def probe_cases(spec, i):
         out.append(dict(spec=sp, d0=2, s0=1, ops=[['E', 2.5, p]], final=['eval_grad2', 2.5, q]))
     if i % 2 == 0:
         out.append(dict(spec=sp, d0=3, s0=1, ops=[['E', 2.5, p], ['G', 0.7]], final=['eval', 0.7, below if not split else p]))
+    # re-entering grid cells: adjacent cells alternately (the upper grid point of one is the lower one of the other)
+    adj = [pts['q']] * K if not split else [pts['p2']] + [pts['q']] * (K - 1)
+    if i % 2 == 0:
+        out.append(dict(spec=sp, d0=0, s0=0, ops=[['E', 2.5, adj], ['E', 2.5, p], ['E', 2.5, adj]], final=['eval', 0.7, p]))
+    else:
+        out.append(dict(spec=sp, d0=1, s0=1, ops=[['E', 0.7, p], ['E', 0.7, adj], ['E', 0.7, p]], final=['eval_grad2', 2.5, adj]))
     # boundary values: a parameter value exactly on a grid point, reached from the cell below / from the cell above
     out.append(dict(spec=sp, d0=1, s0=0, ops=[['E', 2.5, below]], final=['eval', 0.7, node]))
     if i % 2 == 0:
@@ -1484,7 +1524,62 @@ def run(ctx):
                 used_final[ci] = None
     phase['impl runs + snapshot'] = round(_time.time() - t_ph, 1)
     t_ph = _time.time()
-    models = ctx.driver('C06', reqs)
+    tcases = []
+    for case, is_w in cases:
+        if case['final'][0] in ('maximize', 'grad2multi_raw') or ctx.rng.random() >= ctx.n(0.1, 0.5):
+            continue
+        case = dict(case, spec=dict(case['spec'], J=1, product=None))     # the modelled upper layers: one dataset, no product
+        (lops, broke) = top_ops(case, ctx.rng)
+        if lops:
+            tcases.append((case, lops, broke, True))
+    # directed: the documented call order violated (trial data managers without data fields, equal-size data sets)
+    for i, sp in enumerate(specs):
+        if sp['fields'] != 'none':
+            continue
+        pts = points(sp)
+        p = [pts['p']] * sp['K']
+        c = dict(spec=dict(sp, J=1, product=None, dY=(i % 2 == 1), norm=(i % 4 >= 2)), d0=0, s0=0, ops=[], final=['maximize'])
+        tcases.append((c, [['E', 2.5, p], ['T', 1], ['E', 2.5, p], ['G', 2.5]], True, True))                 # cascade forgotten
+        tcases.append((c, [['T', 1], ['E', 0.7, p], ['L'], ['E', 0.7, p], ['G', 0.7]], True, True))          # cascade too late
+        if i % 2 == 0:
+            tcases.append((c, [['E', 2.5, p], ['L'], ['T', 1], ['E', 2.5, p], ['C', 1], ['E', 2.5, p]], True, True))   # too early
+        else:
+            # the object graph as constructed, before its first cascade: an evaluation is refused, the cascade repairs it
+            tcases.append((c, [['G', 2.5], ['E', 2.5, p], ['L'], ['E', 2.5, p], ['G', 2.5]], True, False))
+    ccases = []
+    for case, is_w in cases:
+        if case['final'][0] == 'maximize' or ctx.rng.random() >= ctx.n(0.07, 0.4):
+            continue
+        case = dict(case, spec=dict(case['spec'], J=2, product=None))
+        (lops, broke) = comp_ops(case, ctx.rng)
+        if lops:
+            ccases.append((case, lops, broke))
+    for i, sp in enumerate(specs):          # directed: the composite second derivative twice, after failures, after a new trial
+        if i % 3:
+            continue
+        pts = points(sp)
+        p = [pts['p']] * sp['K']
+        c = dict(spec=dict(sp, J=2, product=None, dY=(i % 2 == 0), norm=False), d0=0, s0=0, ops=[], final=['maximize'])
+        ccases.append((c, [['H', 2.5], ['M', 2.5, p], ['H', 2.5], ['H', 0.7], ['G', 2.5], ['M', 0.7, [bad_point(sp)] * sp['K']],
+                           ['H', 2.5], ['M', 0.7, p], ['T', 2], ['L'], ['H', 0.7], ['M', 2.5, p], ['H', 2.5]], False))
+    reset = extract_variant(ctx, with_fields=True)[4]
+    fcases = [dict(d0=0, s0=0, ops=[['C', 2.0], ['S', 1]], final=2.0),
+              # the key is the tuple of all parameter values: one component changes, then the other, then both, then none
+              dict(d0=0, s0=0, ops=[['C', [2.0, 1.0]], ['C', [2.0, 4.0]], ['C', [2.5, 4.0]], ['C', [3.25, 1.0]]], final=[3.25, 1.0]),
+              dict(d0=1, s0=1, ops=[['C', [2.5, 4.0]], ['R'], ['C', [2.5, 1.0]]], final=[2.0, 1.0])]
+    fcases += [gen_field_case(ctx, maxlen + 1) for _ in range(ctx.n(60, 1500))]
+    timpl = [run_top(c['spec'], c['d0'], c['s0'], lops, cascade=ca) for c, lops, _, ca in tcases]
+    cimpl = [run_comp(c['spec'], c['d0'], c['s0'], lops) for c, lops, _ in ccases]
+    fimpl = [run_field_history(c['d0'], c['s0'], list(c['ops']) + [['C', c['final']]]) for c in fcases]
+    # one driver process for all four request kinds
+    treqs = [_top_request(c, lops, variant, cascade=ca) for c, lops, _, ca in tcases]
+    creqs = [_comp_request(c, lops, variant) for c, lops, _ in ccases]
+    freqs = [_field_request(c, reset) for c in fcases]
+    answers = ctx.driver('C06', reqs + treqs + creqs + freqs)
+    models = answers[:len(reqs)]
+    tmodel = answers[len(reqs):len(reqs) + len(treqs)]
+    cmodel = answers[len(reqs) + len(treqs):len(reqs) + len(treqs) + len(creqs)]
+    fmodel = answers[len(reqs) + len(treqs) + len(creqs):]
     phase['driver hist'] = round(_time.time() - t_ph, 1)
     t_ph = _time.time()
     suspicious = []
@@ -1516,12 +1611,12 @@ def run(ctx):
     for ci, (case, is_w) in enumerate(cases + [(c, False) for c in i3_cases]):
         for name in ('fresh_vs_used', 'cache_onoff', 'cache_snapshot', 'trace_fresh', 'repeat_final', 'arg_forms'):
             if name == 'arg_forms' and not ((case['spec'].get('fp_form') or case['spec'].get('scribble'))
-                                             and ctx.rng.random() < 0.3):
+                                             and ctx.rng.random() < ctx.n(0.2, 0.6)):
                 continue
             if name == 'repeat_final' and (case['final'][0] == 'eval' or (case['final'][0] == 'eval_grad2' and not is_w
                                                                           and ctx.rng.random() < ctx.n(0.4, 0.0))):
                 continue            # evaluate twice in a row is clause (3) of cache_snapshot; eval_grad2 is sampled in quick
-            if name == 'cache_onoff' and (case['spec'].get('graph') == 'i3' or not (is_w or ctx.rng.random() < 0.25)):
+            if name == 'cache_onoff' and (case['spec'].get('graph') == 'i3' or not (is_w or ctx.rng.random() < ctx.n(0.2, 0.5))):
                 continue
             if name == 'trace_fresh' and (case['spec'].get('graph') != 'i3' or not any(op[0] == 'E' for op in case['ops'])):
                 continue
@@ -1576,30 +1671,6 @@ def run(ctx):
     phase['oracles'] = {k: round(v, 1) for k, v in oracle_s.items()}
     t_ph = _time.time()
     # ---- upper layers: real call sequences vs Model/CacheTop.lean (complete sequences, and deliberately broken ones)
-    tcases = []
-    for case, is_w in cases:
-        if case['final'][0] in ('maximize', 'grad2multi_raw') or ctx.rng.random() >= ctx.n(0.12, 0.5):
-            continue
-        case = dict(case, spec=dict(case['spec'], J=1, product=None))     # the modelled upper layers: one dataset, no product
-        (lops, broke) = top_ops(case, ctx.rng)
-        if lops:
-            tcases.append((case, lops, broke, True))
-    # directed: the documented call order violated (trial data managers without data fields, equal-size data sets)
-    for i, sp in enumerate(specs):
-        if sp['fields'] != 'none':
-            continue
-        pts = points(sp)
-        p = [pts['p']] * sp['K']
-        c = dict(spec=dict(sp, J=1, product=None, dY=(i % 2 == 1), norm=(i % 4 >= 2)), d0=0, s0=0, ops=[], final=['maximize'])
-        tcases.append((c, [['E', 2.5, p], ['T', 1], ['E', 2.5, p], ['G', 2.5]], True, True))                 # cascade forgotten
-        tcases.append((c, [['T', 1], ['E', 0.7, p], ['L'], ['E', 0.7, p], ['G', 0.7]], True, True))          # cascade too late
-        if i % 2 == 0:
-            tcases.append((c, [['E', 2.5, p], ['L'], ['T', 1], ['E', 2.5, p], ['C', 1], ['E', 2.5, p]], True, True))   # too early
-        else:
-            # the object graph as constructed, before its first cascade: an evaluation is refused, the cascade repairs it
-            tcases.append((c, [['G', 2.5], ['E', 2.5, p], ['L'], ['E', 2.5, p], ['G', 2.5]], True, False))
-    timpl = [run_top(c['spec'], c['d0'], c['s0'], lops, cascade=ca) for c, lops, _, ca in tcases]
-    tmodel = ctx.driver('C06', [_top_request(c, lops, variant, cascade=ca) for c, lops, _, ca in tcases])
     t_seen = set()
     for (c, lops, broke, ca), i, m in zip(tcases, timpl, tmodel):
         ctx.count('branch:tstep.evaluate ' + ('no event data yet (evd = none)' if not ca else 'event data present'))
@@ -1630,24 +1701,6 @@ def run(ctx):
                         impl_output=_short(i), model_output=m[:300], signature='C06/top_corr/' + mode, no_failing_input=True)
     ctx.extra['top_numbers_compared'] = stats.get('top_numbers', 0)
     # ---- composite likelihood of two datasets vs CacheTop.Comp
-    ccases = []
-    for case, is_w in cases:
-        if case['final'][0] == 'maximize' or ctx.rng.random() >= ctx.n(0.1, 0.4):
-            continue
-        case = dict(case, spec=dict(case['spec'], J=2, product=None))
-        (lops, broke) = comp_ops(case, ctx.rng)
-        if lops:
-            ccases.append((case, lops, broke))
-    for i, sp in enumerate(specs):          # directed: the composite second derivative twice, after failures, after a new trial
-        if i % 3:
-            continue
-        pts = points(sp)
-        p = [pts['p']] * sp['K']
-        c = dict(spec=dict(sp, J=2, product=None, dY=(i % 2 == 0), norm=False), d0=0, s0=0, ops=[], final=['maximize'])
-        ccases.append((c, [['H', 2.5], ['M', 2.5, p], ['H', 2.5], ['H', 0.7], ['G', 2.5], ['M', 0.7, [bad_point(sp)] * sp['K']],
-                           ['H', 2.5], ['M', 0.7, p], ['T', 2], ['L'], ['H', 0.7], ['M', 2.5, p], ['H', 2.5]], False))
-    cimpl = [run_comp(c['spec'], c['d0'], c['s0'], lops) for c, lops, _ in ccases]
-    cmodel = ctx.driver('C06', [_comp_request(c, lops, variant) for c, lops, _ in ccases])
     c_seen = set()
     for (c, lops, broke), i, m in zip(ccases, cimpl, cmodel):
         ctx.case(key=('comp', c['spec'], c['d0'], c['s0'], lops), desc=None)
@@ -1671,12 +1724,7 @@ def run(ctx):
     phase['top'] = round(_time.time() - t_ph, 1)
     ctx.extra['phase_s'] = phase
     # ---- data fields depending on global fit parameters (TrialDataManager level)
-    reset = extract_variant(ctx, with_fields=True)[4]
     ctx.extra['source_facts']['resetFields'] = reset
-    fcases = [dict(d0=0, s0=0, ops=[['C', 2.0], ['S', 1]], final=2.0)]
-    fcases += [gen_field_case(ctx, maxlen + 1) for _ in range(ctx.n(60, 1500))]
-    fimpl = [run_field_history(c['d0'], c['s0'], list(c['ops']) + [['C', c['final']]]) for c in fcases]
-    fmodel = ctx.driver('C06', [_field_request(c, reset) for c in fcases])
     f_reported = False
     for c, i, m in zip(fcases, fimpl, fmodel):
         ctx.case(key=('field', c['d0'], c['s0'], c['ops'], c['final']), desc=None)
